@@ -3,4 +3,5 @@ CONSTANT Tier = 0
 INVARIANT InvStartConsistent
 INVARIANT InvQueues
 INVARIANT InvStored
+PROPERTY Terminates
 CHECK_DEADLOCK FALSE
